@@ -149,8 +149,10 @@ class UnitPow(Contract):
         return to_real(p)
 
     def raises(self, it, a):
-        return {"InvalidUnitOperation": z3.And(is_ref(S.dim(a.self), "logarithmic"),
-                                               self.pval(a) != 1)}
+        # logarithmic units and (C08) units with a zero-point offset refuse every power but 1
+        return {"InvalidUnitOperation": z3.And(
+            z3.Or(is_ref(S.dim(a.self), "logarithmic"), S.offset(a.self) != 0),
+            self.pval(a) != 1)}
 
     def result(self, it, a):
         from pyvc.core import is_num
@@ -169,7 +171,8 @@ class UnitPow(Contract):
             ("dimension object canonical", _b(d.canon())),
             ("registry preserved", r.fields["registry"] is a.self.fields["registry"]),
             ("expression is expr**p", r.fields["expr"].term == e_pow(a.self.fields["expr"].term, p)),
-            ("result has no zero-point offset", S.offset(r) == 0),
+            ("u**1 keeps the zero-point offset (u**1 == u); every other power has none",
+             S.offset(r) == z3.If(p == 1, S.offset(a.self), z3.RealVal(0))),
         ]
 
     def canary(self, it, a, r, old):
